@@ -431,6 +431,6 @@ pub fn run_c20(ctx: &mut Ctx) {
     ctx.meta.insert("samples".into(), serde_json::json!(samples));
     ctx.meta.insert(
         "rule".into(),
-        serde_json::json!("histories of 0..4 earlier resolutions (5 template kinds x 0..3 extra outputs, succeeding or failing for lack of funds) on one compiler instance, then a target template (biased to ones using min_utxo); outcome (payload bytes, hash, fee, or error variant / panic) compared with a fresh identically configured instance; distinct = distinct (history shape, target, outcomes)"),
+        serde_json::json!("histories of 0..4 earlier resolutions (8 template kinds - among them a threshold that reads min_utxo and a first output with a 3000-byte datum - x 0..3 extra outputs, succeeding or failing for lack of funds; tight wallets for the threshold template) on one compiler instance, then a target template (biased to ones using min_utxo); outcome (payload bytes, hash, fee, or error variant / panic) compared with a fresh identically configured instance; distinct = distinct (history shape, target, outcomes)"),
     );
 }
